@@ -137,6 +137,13 @@ def bounded(b):
                     if not ok:
                         continue
                     b.case("match/arguments_untouched_by_export", al == al_before and G.fingerprint(part) == fp_before, case, "save_match modified the alignment or the score part")
+                    if (ppq, mpq) == (480, 500000):
+                        # the default option (the part is unfolded to fit the alignment first): same arguments afterwards, and a file is written
+                        fn_d = os.path.join(d, "default.match")
+                        okd, _ = b.guard("match/save_no_exception", dict(case, assume_unfolded=False), lambda: pt.save_match(al, ppart, part, fn_d, mpq=mpq, ppq=ppq))
+                        if okd:
+                            b.case("match/arguments_untouched_by_export", al == al_before and G.fingerprint(part) == fp_before, dict(case, assume_unfolded=False),
+                                   "save_match with its default options modified the alignment or the score part")
                     ok, res = b.guard("match/load_no_exception", case, lambda: pt.load_match(fn, create_score=True))
                     if not ok:
                         continue
